@@ -599,6 +599,19 @@ void World::apply(const Json::Value& op) {
       v["path"] = rel;
       make(v);
     }
+  } else if (o == "bump") {
+    if (Cg* c = find(op.get("cg", "").asString())) {
+      c->memstatSet("pgscan", c->memstatGet("pgscan") + op.get("pgscan", 0).asInt64());
+      if (!c->iostat.empty()) {
+        int64_t io = op.get("io", 0).asInt64();
+        c->iostat[0].rbytes += io;
+        c->iostat[0].wbytes += io / 2;
+        c->iostat[0].rios += io / 4096;
+        c->iostat[0].wios += io / 8192;
+      }
+      if (op.isMember("cur"))
+        c->cur = op["cur"].asInt64();
+    }
   } else if (o == "proc") {
     setProcFields(proc, op["v"]);
   }
